@@ -3,7 +3,7 @@
 From Coq Require Import ZArith List String Bool.
 Import ListNotations.
 From TD Require Import Model.Keys Model.C04_Tree Model.C04_Ops Model.C04_Views Model.C04_Step
-     Spec.C04_NestedDict Proofs.C04_AssocP Proofs.C04_CoreP Proofs.C04_RenameP Proofs.C04_HistP.
+     Spec.C04_NestedDict Proofs.C04_AssocP Proofs.C04_CoreP Proofs.C04_RenameP Proofs.C04_UnflattenP Proofs.C04_HistP.
 Open Scope string_scope.
 Open Scope list_scope.
 Open Scope Z_scope.
@@ -16,45 +16,14 @@ Proof.
   repeat constructor; cbn; intuition discriminate.
 Qed.
 
-(* D24: flatten_keys(inplace=True) loses the root-level leaves *)
-Lemma flatten_inplace_refuted :
-  exists es, wfE es /\
-    match nd_step py_split (absE es) (SFlatten "." true false) with
-    | Some r => sr_err (step es (OFlatten "." true false)) = None /\ absE (sr_self (step es (OFlatten "." true false))) <> s_self r
-    | None => False
-    end.
-Proof. exists ex_tree. split; [exact ex_tree_wf|]. vm_compute. split; [reflexivity|discriminate]. Qed.
-
-(* D42: renaming a nested node to a key underneath itself silently deletes it *)
-Lemma rename_into_itself_refuted :
-  exists es k1 k2, wfE es /\ wfb k1 = true /\ wfb k2 = true /\ strict_prefix (strings k1) (strings k2) /\
-    match nd_step py_split (absE es) (SRename (strings k1) (strings k2) false) with
-    | Some r => sr_err (step es (ORename k1 k2 false)) = None /\ absE (sr_self (step es (ORename k1 k2 false))) <> s_self r
-    | None => False
+(* D48: selecting a key together with one of its own sub-keys narrows the key to that sub-key *)
+Lemma select_subkey_refuted :
+  exists es ks, wfE es /\ Forall (fun k => wfb k = true) ks /\
+    match nd_step py_split (absE es) (SSelect (map strings ks) false true false), sr_results (step es (OSelect ks false true false)) with
+    | Some r, Some outs => sr_err (step es (OSelect ks false true false)) = None /\ Some (map absE outs) <> s_results r
+    | _, _ => False
     end.
 Proof.
-  exists ex_tree, (KS "n"), (KT [KS "n"; KS "x"]). split; [exact ex_tree_wf|]. split; [reflexivity|]. split; [reflexivity|].
-  split; [exists ["x"]; split; [discriminate|reflexivity]|]. vm_compute. split; [reflexivity|discriminate].
-Qed.
-
-(* S7: membership in a leaves_only view ignores leaves_only *)
-Lemma contains_leaves_only_refuted :
-  exists es k, wfE es /\ wfb k = true /\
-    keys_contains true true false k es = Ok true /\ ~ In (strings k) (keys_view true true false false es).
-Proof.
-  exists ex_tree, (KS "n"). split; [exact ex_tree_wf|]. split; [reflexivity|]. split; [reflexivity|].
-  vm_compute. intuition discriminate.
-Qed.
-
-(* D41: values(sort=True) of an empty tensordict raises, items(sort=True) is [] *)
-Lemma values_sorted_empty_refuted :
-  values_view false false true false [] = Raise EOther /\ items_view false false true false [] = [].
-Proof. split; reflexivity. Qed.
-
-(* D43: the 1-tuple spelling of the empty-string key is rejected by `in` *)
-Lemma contains_empty_string_refuted :
-  exists es, wfE es /\ wfb (KT [KS ""]) = true /\ strings (KT [KS ""]) = strings (KS "") /\
-    td_contains (KS "") es = Ok true /\ td_contains (KT [KS ""]) es = Raise EOther.
-Proof.
-  exists [("", Leaf LT 1)]. split; [constructor; repeat constructor; cbn; tauto|]. repeat split; reflexivity.
+  exists ex_tree, [KS "n"; KT [KS "n"; KS "b"]]. split; [exact ex_tree_wf|]. split; [repeat constructor|].
+  vm_compute. split; [reflexivity|discriminate].
 Qed.
